@@ -17,7 +17,7 @@ RULE = (
     "edge whitelist) x caching on/off.  For each world the complete matrix (exchange point x mutation) is "
     "enumerated.  Exchange points OUT: Vertex.links, Link.vertices, Universe.vertices, BaseObject.universes, "
     "UniverseLaws.edge_whitelist (outer and inner mapping), neighbors() (cache-filling call right after an invalidation, and cache hit), find_links(), "
-    "bft / dft_recursive / dft_iterative results, unlink(destroy=False) result.  Exchange points IN: Vertex(links=, "
+    "bft / dft_recursive / dft_iterative results, unlink(destroy=False) result.  Exchange points IN (with container sizes 0, 1 and more): Vertex(links=, "
     "universes=, attributes=), Link subclass(vertices=), Universe(vertices=), UniverseLaws(edge_whitelist=) outer "
     "and inner dict, load_adj_dict input and rows, load_adj_matrix matrix, rows and side array.  Mutations: "
     "append, extend, insert, remove/pop, clear, sort, reverse, item assignment/deletion, add/discard/update as the "
@@ -245,7 +245,7 @@ def _in_points(W, case, junk, verify, classes):
     vi = lambda seq: [next((i for i, v in enumerate(vs) if v is x), "?") for x in seq]
 
     def mk_vertex():
-        links = list(W.ls[:2])
+        links = list(W.ls[: [2, 1, 0][(W.a + 2 * W.b) % 3]])
         unis = [W.uni]
         attrs = {"p": 1, "q": [2]}
         v = Vertex(links=links, universes=unis, attributes=attrs)
@@ -258,7 +258,7 @@ def _in_points(W, case, junk, verify, classes):
         return [links, unis, attrs], lambda: ([id(l) for l in v.links], [id(u) for u in v.universes], sorted(k for k in vars(v) if not k.startswith("_")), getattr(v, "p", None))
 
     def mk_link():
-        ends = [vs[W.a], vs[W.b]]
+        ends = [vs[W.a], vs[W.b]][: [2, 1, 2][(W.a * 2 + W.b) % 3]]
         l = PlainLink(vertices=ends)
         def undo():
             for x in list(l.vertices):
@@ -267,7 +267,7 @@ def _in_points(W, case, junk, verify, classes):
         return [ends], lambda: vi(l.vertices)
 
     def mk_universe():
-        members = list(vs[:3])
+        members = list(vs[: [3, 1, 0, 2][(W.a + W.b) % 4]])    # also the degenerate sizes 0 and 1
         u = Universe(vertices=members)
         def undo():
             for x in list(u.vertices):
@@ -283,7 +283,7 @@ def _in_points(W, case, junk, verify, classes):
 
     def mk_adjdict():
         fresh = [Vertex(attributes={"i": 100 + i}) for i in range(3)]
-        row0, row1 = [fresh[1], fresh[2]], [fresh[0]]
+        row0, row1 = [[fresh[1], fresh[2]], [fresh[1]], []][(W.a + W.b) % 3], [fresh[0]]
         adj = {fresh[0]: row0, fresh[1]: row1}
         u = adjlist.load_adj_dict(adj)
         return [adj, row0, row1], lambda: ([x.i for x in u.vertices], [[(l.v1.i, l.v2.i) for l in v.links] for v in fresh])
